@@ -482,6 +482,8 @@ def describe(rep, case):
     rep.dist("class=" + case_class(case))
     sv = case["_sv"]
     rep.dist("weighted" if sv.weighted else "unweighted")
+    if case.get("near_flat_weights"):
+        rep.dist("near-flat-weights (1 +- j * 2^-20)")
     ap = [a for a in case["_axes"] if a["role"] != "mr_sel"]
     rep.dist("ndim=%d" % len(ap))
     mid = any(any(m and not all(a["missing"][n:]) for n, m in enumerate(a["missing"]))
@@ -852,6 +854,12 @@ def gen_cases(tier, seed):
     cases += [sh.gen_tdorder_case(rng_td, n_std + n_na + n_nub + n_typed + k,
                                   shape_class=forced_td[k] if k < len(forced_td) else None)
               for k in range(n_td)]
+    # NEARLY FLAT WEIGHTS (cube_util.near_flat_variant, after seeded change C01-11): the first std cases with
+    # at least three respondents, re-weighted to 1 +- j * 2^-20
+    rng_nf = random.Random(seed * 7 + 6)
+    n_nf = 40 if tier == "quick" else 600
+    src = [c for c in cases[:n_std] if len(c["_sv"].resp) >= 3 and not c.get("ca_as_0th")][:n_nf]
+    cases += [cu.near_flat_variant(c, rng_nf, 10 ** 6 + i) for i, c in enumerate(src)]
     return cases
 
 
